@@ -351,6 +351,14 @@ func NewManager(
 		return nil, err
 	}
 
+	// Blocks below the initial height never exist. With nothing submitted yet, start both pending
+	// ranges right below the initial height; otherwise getPending asks the store for heights
+	// 1..InitialHeight-1, fails on every tick, and nothing is ever submitted to the DA layer.
+	if genesis.InitialHeight > 1 {
+		pendingHeaders.base.lastHeight.CompareAndSwap(0, genesis.InitialHeight-1)
+		pendingData.base.lastHeight.CompareAndSwap(0, genesis.InitialHeight-1)
+	}
+
 	// If lastBatchHash is not set, retrieve the last batch hash from store
 	lastBatchDataBytes, err := store.GetMetadata(ctx, storepkg.LastBatchDataKey)
 	if err != nil && s.LastBlockHeight > 0 {
